@@ -200,6 +200,9 @@ pub struct EfgOpts {
     pub share_outcomes: bool,
     pub naming: Naming,
     pub decimal_probs: bool,
+    /// 0: chance actions labelled o00, o01, ...; 1: all labelled ""; 2: all labelled "deal"
+    /// (repeated labels within one chance node are legal: the format identifies outcomes by position)
+    pub chance_labels: u8,
     pub shuffle_actions: bool,
     pub outcome_names: bool,
     pub commas: bool,
@@ -215,7 +218,7 @@ pub struct EfgOpts {
 
 impl EfgOpts {
     pub fn plain() -> EfgOpts {
-        EfgOpts { constant: 0.0, interior: false, share_outcomes: false, naming: Naming::Named, decimal_probs: false, shuffle_actions: false, outcome_names: false, commas: false, comment: false, cross_player_number_names: false, by_reference: false, uncompensated: false }
+        EfgOpts { constant: 0.0, interior: false, share_outcomes: false, naming: Naming::Named, decimal_probs: false, chance_labels: 0, shuffle_actions: false, outcome_names: false, commas: false, comment: false, cross_player_number_names: false, by_reference: false, uncompensated: false }
     }
 
     pub fn random(rng: &mut Rng, dyadic: bool) -> EfgOpts {
@@ -225,6 +228,7 @@ impl EfgOpts {
             share_outcomes: rng.chance(0.5),
             naming: *rng.pick(&[Naming::Named, Naming::Named, Naming::Unnamed, Naming::Mixed]),
             decimal_probs: rng.chance(0.4),
+            chance_labels: *rng.pick(&[0u8, 0, 0, 1, 2]),
             shuffle_actions: rng.chance(0.5),
             outcome_names: rng.chance(0.3),
             commas: rng.chance(0.4),
@@ -425,7 +429,12 @@ impl EfgWriter<'_> {
                     } else {
                         format!("{}/{}", *w as u64, toti)
                     };
-                    list.push_str(&format!("{} {} ", quote(&outcome_name(k)), p));
+                    let label = match self.opts.chance_labels {
+                        1 => String::new(),
+                        2 => "deal".to_string(),
+                        _ => outcome_name(k),
+                    };
+                    list.push_str(&format!("{} {} ", quote(&label), p));
                 }
                 self.out.push_str(&format!("c \"\" {} {{ {}}} {}\n", number, list, interior));
                 self.note_site(site, &interior);
@@ -544,6 +553,9 @@ pub fn write_efg(rng: &mut Rng, tree: &HNode, opts: &EfgOpts) -> FileGame {
     if opts.decimal_probs {
         features.push("decimal-probabilities");
     }
+    if opts.chance_labels != 0 {
+        features.push("repeated-chance-action-labels");
+    }
     if opts.shuffle_actions {
         features.push("unsorted-action-lists");
     }
@@ -557,7 +569,7 @@ pub fn write_efg(rng: &mut Rng, tree: &HNode, opts: &EfgOpts) -> FileGame {
         outcomes: HashMap::new(),
         next_outcome: 1,
         features,
-        exact: opts.constant == 0.0,
+        exact: opts.constant == 0.0 && opts.chance_labels == 0,
         totals: Vec::new(),
         interior_sites: Vec::new(),
         terminal_outcomes: std::collections::HashSet::new(),
